@@ -188,6 +188,14 @@ func runCheck(prop, tier string, seed uint64, replay string) int {
 		return 2
 	}
 	c.sc = sc
+	for _, sm := range sc.Report.Seams {
+		if sm.Kind == "go" {
+			bubbleOn = true
+		}
+	}
+	if bubbleOn {
+		c.logf("the tree starts goroutines: worlds run inside a synctest bubble with the goroutine scheduling seam")
+	}
 	if len(sc.Report.Unseamed) > 0 {
 		// A source of nondeterminism the simulator does not own: the check
 		// cannot decide the property by simulation; it still runs the real
